@@ -116,7 +116,7 @@ m = {
    {"name": "apihelpers", "path": "/verif/lib/apihelpers.py", "serves_properties": [],
     "kind_free_text": "extension X04 (not a listed property; ./check X04): exported helpers of pkg/api - ParseEventMask shorthands, removal markers, Mount.Cmp / LinuxDevice.Cmp, Hooks.Append (tla/ApiHelpers, harness/helpdrv, tla/Trace_ApiHelpers); two findings under property=X04"},
    {"name": "legacy", "path": "/verif/lib/legacy.py", "serves_properties": [],
-    "kind_free_text": "extension X05 (not a listed property; ./check X05): the v0.1.0 plugin chain - nri.Client.InvokeWithSandbox, skel.Run, types/v1 - as a state machine (tla/Legacy, tla/Gen_Legacy), chains of plugin processes run by a real client (harness/legacydrv, guarded constructor client_verif.go), TLC trace validation (tla/Trace_Legacy)"},
+    "kind_free_text": "extension X05 (not a listed property; ./check X05): the v0.1.0 plugin chain - nri.Client.InvokeWithSandbox, skel.Run, types/v1 - as a state machine (tla/Legacy, tla/Gen_Legacy), chains of plugin processes run by a real client (harness/legacydrv, guarded constructor client_verif.go), TLC trace validation (tla/Trace_Legacy); one finding under property=X05 (skel.Run without an argument)"},
    {"name": "adaptlife", "path": "/verif/lib/adaptlife.py", "serves_properties": [],
     "kind_free_text": "extension X02 (not a listed property; ./check X02): Adaptation Start/Stop/restart against registrations in flight (tla/AdaptLife, tla/Gen_AdaptLife), schedules stepped through a real Adaptation (harness/alifedrv), TLC trace validation (tla/Trace_AdaptLife); findings under property=X02 in known_findings.txt"},
    {"name": "convert", "path": "/verif/lib/convert.py", "serves_properties": ["C14"],
